@@ -5,7 +5,7 @@ import Rare.Proofs.C12Ext
 import Rare.Proofs.C12Amd64
 import Rare.Proofs.C12Utf8
 import Rare.Proofs.C12LazyM
-import Rare.Proofs.C12Rx
+import Rare.Proofs.C12RxM
 import Rare.Gen.C12
 /-!
 Property C12 – dissect matching equals its specification; ignore-case only adds matches.
@@ -883,6 +883,29 @@ theorem no_match_iff_no_split (ic : Bool) (p : Pat) (hp : p.Shape) (d : Dissect)
   rw [matchAll_one hp hc, specFor_patFor, ← specDissect_none_iff]
   cases specDissect (patFor ic p) (foldFor ic line) <;> simp
 
+/-- **No match iff the line is not an instance of the pattern – the specification without any
+position or search.**  `IsInstance q l`: `l = before ++ lit₀ v₁ lit₁ … vₙ litₙ ++ after` for SOME
+texts `vᵢ` (one per token, captured or skipped), `after` empty when the last token has no trailing
+literal.  The real code answers `nil` exactly when the line (as the mode compares it) is no such
+text, and a match otherwise. -/
+theorem match_iff_instance (ic : Bool) (p : Pat) (hp : p.Shape) (d : Dissect)
+    (hc : compileEx p.render ic = .ok d) (line : Bytes) :
+    (matchAll d [line] = .ok [none] ↔ ¬ IsInstance (patFor ic p) (foldFor ic line)) ∧
+    ((∃ r, matchAll d [line] = .ok [some r]) ↔ IsInstance (patFor ic p) (foldFor ic line)) := by
+  have hi := isInstance_iff_isMatch (patFor ic p) (midLits_patFor hp hc) (foldFor ic line)
+  have hn := no_match_iff_no_split ic p hp d hc line
+  refine ⟨by rw [hn, hi], ?_⟩
+  rw [hi]
+  constructor
+  · rintro ⟨r, hr⟩
+    obtain ⟨s, ns, hm, _, _⟩ := (match_is_least_split ic p hp d hc line r).mp hr
+    exact ⟨s, ns, hm⟩
+  · intro hex
+    rw [matchAll_one hp hc] at hn
+    cases hs : specFor ic p line with
+    | none => exact absurd hex (hn.mp (by rw [hs]; rfl))
+    | some r0 => exact ⟨r0.map Int.ofNat, by rw [matchAll_one hp hc, hs]; rfl⟩
+
 /-- **`{0}` is the pattern with the token texts filled in.**  A match `[s, e, …]` comes with one
 text per token (captured or skipped), cut out of the line, such that `line[s:e]` IS
 `lit₀ v₁ lit₁ v₂ lit₂ … vₙ litₙ` (`instantiate`) – byte for byte when case-sensitive, after the
@@ -971,17 +994,7 @@ regex engine's model returns – offsets, group order, match/no match. -/
 theorem dissect_eq_regexp_model (ic : Bool) (p : Pat) (hp : p.Shape) (d : Dissect)
     (hc : compileEx p.render ic = .ok d) (lines : List Bytes) :
     matchAll d lines = .ok (lines.map fun l => rxDissect (patFor ic p) (foldFor ic l)) := by
-  have hm : midLits p.toks = true := by
-    have h := compile_errors ic p hp none (by simp)
-    simp only [tailText, List.append_nil, Option.isSome_none] at h
-    rw [hc] at h
-    cases he : specErrors false p.toks [] with
-    | none => exact midLits_of_specErrors _ _ he
-    | some e => rw [he] at h; cases h
-  have hm' : midLits (patFor ic p).toks = true := by
-    cases ic
-    · simpa [patFor] using hm
-    · simpa [patFor, Pat.lowerLits, midLits_lowerLit] using hm
+  have hm' := midLits_patFor hp hc
   rw [dissect_eq_spec ic p hp d hc]
   congr 1
   apply List.map_congr_left
@@ -1003,6 +1016,64 @@ theorem regexp_model_counterexample :
     specDissect ⟨[], [⟨[120], []⟩, ⟨[121], [97]⟩]⟩ [98, 97] = none ∧
     rxDissect ⟨[], [⟨[120], []⟩, ⟨[121], [97]⟩]⟩ [98, 97] = some [0, 2, 0, 1, 1, 1] := by
   refine ⟨by decide, by decide, by decide⟩
+
+/-! ### Round 4c – extending a pattern; the command line's choice of the matcher -/
+
+/-- **More tokens at the end of a pattern never change what the earlier tokens capture.**  Let a
+pattern and its extension by further tokens both compile (same mode).  Whenever the LONGER pattern
+matches a line, the shorter one matches it too – same start, same captures for the common tokens;
+the extension only appends captures and moves the end of `{0}` to the right.  (A pattern can be
+written token by token, left to right, without the earlier fields ever changing.) -/
+theorem longer_pattern_keeps_earlier_captures (ic : Bool) (pre : Bytes) (ts us : List Tok)
+    (hp : (⟨pre, ts⟩ : Pat).Shape) (hp' : (⟨pre, ts ++ us⟩ : Pat).Shape) (d d' : Dissect)
+    (hc : compileEx (Pat.render ⟨pre, ts⟩) ic = .ok d)
+    (hc' : compileEx (Pat.render ⟨pre, ts ++ us⟩) ic = .ok d')
+    (line : Bytes) (r' : List Int) (h : matchAll d' [line] = .ok [some r']) :
+    ∃ (s e e' : Nat) (caps more : List Int),
+      matchAll d [line] = .ok [some ((s : Int) :: (e : Int) :: caps)] ∧
+      r' = (s : Int) :: (e' : Int) :: (caps ++ more) ∧ e ≤ e' := by
+  rw [matchAll_one hp' hc', specFor_patFor] at h
+  have hpat : patFor ic ⟨pre, ts ++ us⟩ = ⟨(patFor ic ⟨pre, ts⟩).pre, (patFor ic ⟨pre, ts⟩).toks ++
+      (if ic then us.map Tok.lowerLit else us)⟩ := by
+    cases ic <;> simp [patFor, Pat.lowerLits]
+  rw [hpat] at h
+  cases hs : specDissect ⟨(patFor ic ⟨pre, ts⟩).pre, (patFor ic ⟨pre, ts⟩).toks ++
+      (if ic then us.map Tok.lowerLit else us)⟩ (foldFor ic line) with
+  | none => rw [hs] at h; cases h
+  | some r0 =>
+    rw [hs] at h
+    simp only [Option.map_some, Option.some.injEq] at h
+    obtain ⟨s, e, e', caps, more, h1, h2, h3⟩ := specDissect_append hs
+    refine ⟨s, e, e', caps.map Int.ofNat, more.map Int.ofNat, ?_, ?_, h3⟩
+    · rw [matchAll_one hp hc, specFor_patFor]
+      have : (⟨(patFor ic ⟨pre, ts⟩).pre, (patFor ic ⟨pre, ts⟩).toks⟩ : Pat) = patFor ic ⟨pre, ts⟩ := rfl
+      rw [this] at h1
+      rw [h1]; rfl
+    · rw [h, h2]; simp
+
+/-- **Tie to the source (regenerated on every run): how the command line chooses the matcher.**
+`BuildMatcherFromArguments` statement by statement – `-d` and `-m` together are refused; the dissect
+arm calls `dissect.CompileEx(dissectExpr, ignoreCase)` with `ignoreCase = c.Bool("ignore-case")` and
+wraps the result with `matchers.ToFactory`; the regex arm puts `(?i)` in front of the expression;
+neither flag gives `AlwaysMatch` – and the model `buildMatcher` of that switch: `-I` reaches BOTH
+matchers, each in its own way (byte-wise ASCII fold / Unicode fold of `regexp`), which is why
+`-d PAT -I` and `-m REGEX -I` agree on ASCII literals only (`ci_boundary_counterexamples`; the CLI
+step runs all arms). -/
+theorem matcher_wiring_matches_source :
+    Gen.C12.matcherWiringSkeleton =
+      ["var ( matchExpr = c.String(\"match\") dissectExpr = c.String(\"dissect\") posix = c.Bool(\"posix\") ignoreCase = c.Bool(\"ignore-case\") )",
+       "switch", "case c.IsSet(\"match\") && c.IsSet(\"dissect\")", "return nil, errors.New(\"match and dissect conflict\")",
+       "case c.IsSet(\"dissect\")", "d, err := dissect.CompileEx(dissectExpr, ignoreCase)", "if err != nil", "return nil, err", "end",
+       "return matchers.ToFactory(d), nil",
+       "case c.IsSet(\"match\")", "if ignoreCase", "matchExpr = \"(?i)\" + matchExpr", "end",
+       "r, err := fastregex.CompileEx(matchExpr, posix)", "if err != nil", "return nil, err", "end",
+       "return matchers.ToFactory(r), nil", "default", "return &matchers.AlwaysMatch{}, nil", "end"] ∧
+    (∀ m d px ic, buildMatcher true true m d px ic = .conflict) ∧
+    (∀ m d px ic, buildMatcher false true m d px ic = .dissect d ic) ∧
+    (∀ m d px, buildMatcher true false m d px true = .regex (icPrefix ++ m) px) ∧
+    (∀ m d px, buildMatcher true false m d px false = .regex m px) ∧
+    (∀ m d px ic, buildMatcher false false m d px ic = .always) := by
+  refine ⟨by rfl, ?_, ?_, ?_, ?_, ?_⟩ <;> intros <;> rfl
 
 /-! ### Non-vacuity: the hypotheses above are satisfiable on concrete, non-trivial values -/
 
@@ -1103,5 +1174,18 @@ example : IsMatch (patFor true histPat) (foldFor true [73, 68, 61, 49, 59, 105, 
 -- the regex model on a pattern with a skipped token and a token to the end of the line
 example : midLits exPat.toks = true ∧ rxDissect exPat exLine = some [1, 8, 3, 4, 7, 8] := by
   constructor <;> decide
+-- `longer_pattern_keeps_earlier_captures`: `id=%{v};` and its extension `id=%{v};%{w};` both compile; a line both match
+example : compileEx (Pat.render ⟨[105, 100, 61], [⟨[118], [59]⟩]⟩) false = .ok (compiled false ⟨[105, 100, 61], [⟨[118], [59]⟩]⟩) ∧
+    compileEx (Pat.render ⟨[105, 100, 61], [⟨[118], [59]⟩] ++ [⟨[119], [59]⟩]⟩) false =
+      .ok (compiled false ⟨[105, 100, 61], [⟨[118], [59]⟩] ++ [⟨[119], [59]⟩]⟩) ∧
+    matchAll (compiled false ⟨[105, 100, 61], [⟨[118], [59]⟩] ++ [⟨[119], [59]⟩]⟩) [[105, 100, 61, 49, 59, 50, 59]] =
+      .ok [some [0, 7, 3, 4, 5, 6]] ∧
+    matchAll (compiled false ⟨[105, 100, 61], [⟨[118], [59]⟩]⟩) [[105, 100, 61, 49, 59, 50, 59]] = .ok [some [0, 5, 3, 4]] := by
+  refine ⟨by rfl, by rfl, ?_, ?_⟩ <;> (simp only [matchAll_compiled, Except.ok.injEq]; decide)
+-- `match_iff_instance`: an instance (`x` + `id=` `1` `;` + `zz`), and a line that is none
+example : IsInstance histPat [120, 105, 100, 61, 49, 59, 122, 122] ∧ ¬ IsInstance histPat [105, 100, 59, 61] := by
+  refine ⟨⟨[120], [[49]], [122, 122], rfl, by decide, by decide⟩, ?_⟩
+  rw [isInstance_iff_isMatch histPat (by decide), ← specDissect_none_iff]
+  decide
 
 end Rare.C12
